@@ -94,9 +94,7 @@ func (v *visitor) VisitImplicitCondition(ctx *gen.ImplicitConditionContext) any 
 		if err == nil {
 			return NewCondition(PropertyTypeAttribute, AttributeID, OpEqual, strconv.Itoa(num))
 		}
-	} else if asURN != urns.NilURN {
-		scheme, path, _, _ := asURN.ToParts()
-
+	} else if scheme, path, _, _ := asURN.ToParts(); asURN != urns.NilURN && urns.IsValidScheme(strings.ToLower(scheme)) {
 		return NewCondition(PropertyTypeURN, strings.ToLower(scheme), OpEqual, path)
 
 	} else if implicitIsPhoneNumberRegex.MatchString(value) {
